@@ -221,6 +221,7 @@ func main() {
 	concurrent(rep, args, rounds, opsPer)
 
 	byteRanges(rep)
+	releaseAll(rep)
 	sameOwner(rep, core.Pick(args, 150000, 1500000))
 	rep.Finish()
 }
